@@ -485,6 +485,8 @@ def run_histories(prop, report, tier, seed, replay=None):
         stage_unreadable_entry(report, Counter())
         if replay is not None:
             return
+    if replay is not None and 'history' not in replay['input']:
+        return          # the replayed input belongs to another stage of this property
     rng = rng_for(seed, prop, 'hist')
     hs = [replay['input']['history']] if replay else [gen_history(rng, tier) for _ in range(HIST_VOLUME[tier])]
     terms, kept = [], []
